@@ -27,8 +27,40 @@ ARITH = {ast.Add: ast.Sub, ast.Sub: ast.Add, ast.Mult: ast.FloorDiv, ast.FloorDi
 SWAP = {"dom": "cod", "cod": "dom", "l": "r", "r": "l", "left": "right", "right": "left"}
 
 
+def sites2(tree):
+    """second family of edits: the wrong variable (a name read replaced by another local / parameter of the same function), a dagger / reversal dropped"""
+    out = []
+    walk = list(ast.walk(tree))
+    pos = {id(n): i for i, n in enumerate(walk)}
+    for fn in walk:
+        if not isinstance(fn, (ast.FunctionDef, ast.Lambda)):
+            continue
+        body = fn.body if isinstance(fn.body, list) else [fn.body]
+        own = []
+        todo = list(body)
+        while todo:
+            n = todo.pop()
+            if isinstance(n, (ast.FunctionDef, ast.Lambda, ast.ClassDef)) :
+                continue
+            own.append(n)
+            todo.extend(ast.iter_child_nodes(n))
+        local = sorted({a.arg for a in fn.args.args + fn.args.kwonlyargs if a.arg not in ("self", "cls")} | {n.id for n in own if isinstance(n, ast.Name) and isinstance(n.ctx, ast.Store)})
+        local = [x for x in local if x != "_"]
+        for n in own:
+            if isinstance(n, ast.Name) and isinstance(n.ctx, ast.Load) and n.id in local and len(local) > 1:
+                k = local.index(n.id)
+                out.append((pos[id(n)], "name:" + local[(k + 1) % len(local)]))
+            elif isinstance(n, ast.Call) and isinstance(n.func, ast.Attribute) and n.func.attr in ("dagger", "conjugate", "transpose", "downgrade") and not n.args:
+                out.append((pos[id(n)], "dropcall"))
+            elif isinstance(n, ast.Subscript) and isinstance(n.slice, ast.Slice) and n.slice.lower is None and n.slice.upper is None and n.slice.step is not None:
+                out.append((pos[id(n)], "dropcall"))
+    return out
+
+
 def sites(tree):
     """(index in ast.walk order, variant) for every applicable edit"""
+    if os.environ.get("MUTSURVEY_FAMILY") == "2":
+        return sites2(tree)
     out = []
     doc = set()
     for n in ast.walk(tree):
@@ -118,6 +150,18 @@ def apply(tree, idx, variant):
             n.attr = SWAP[n.attr]
         else:
             n.id = SWAP[n.id]
+    elif variant.startswith("name:"):
+        n.id = variant[5:]
+    elif variant == "dropcall":
+        repl = n.func.value if isinstance(n, ast.Call) else n.value
+        for p_ in ast.walk(tree):
+            for f_, v_ in ast.iter_fields(p_):
+                if v_ is n:
+                    setattr(p_, f_, repl)
+                elif isinstance(v_, list):
+                    for k_, x_ in enumerate(v_):
+                        if x_ is n:
+                            v_[k_] = repl
     elif variant.startswith("delstmt-"):
         _, field, k = variant.split("-")
         del getattr(n, field)[int(k)]
